@@ -153,7 +153,14 @@ class Core : public ResultCoreT<Type, Ret, E>, public FuncCore<Func> {
       return Done<SymmetricTransfer, true>(core.template MoveOrConst<!AsyncShared>());
     };
     if constexpr (IsRun(Type)) {
-      return async_done();
+      if constexpr (kAsync != AsyncType::None) {
+        if (this->_self.caller != nullptr) {
+          return async_done();
+        }
+      }
+      // Head of a lazy pipeline started by another step or coroutine, same as detail::Start
+      this->_executor->Submit(*this);
+      return Noop<SymmetricTransfer>();
     } else {
       if constexpr (kAsync != AsyncType::None) {
         if (this->_self.unwrapping != 0) {
